@@ -116,6 +116,7 @@ def handle (j : Json) : R Json := do
       ("multicomm_atomic", multicommAtomicB evs),
       ("exchange_atomic", exchangeAtomicB evs),
       ("delays_honoured", delaysHonouredB evs),
+      ("transaction_protected", transactionProtectedB evs),
       ("stale_discarded", staleDiscardedB cfg.bytesMode cfg.eol evs),
       ("reply_pairing", replyPairingB cfg.bytesMode cfg.eol evs),
       ("fails_within_timeout", failsWithinTimeoutB cfg evs),
